@@ -22,6 +22,11 @@ CALLS = {
     'qdom::hasAttribute/1': ('fn', 'qdom_hasAttribute'),
     'qdom::text/0': ('fn', 'qdom_text'),
     'qdom::isNull/0': ('expr', '{0} == 0'),
+    # QDomElement's own member forms (no namespace filter)
+    'qdom::firstChildElement/0': ('expr', 'qdom_firstChildElement({0}, 0, 0)'),
+    'qdom::firstChildElement/1': ('expr', 'qdom_firstChildElement({0}, {1}, 0)'),
+    'qdom::nextSiblingElement/0': ('expr', 'qdom_nextSiblingElement({0}, 0, 0)'),
+    'qdom::nextSiblingElement/1': ('expr', 'qdom_nextSiblingElement({0}, {1}, 0)'),
     'fn:firstChildElement/3': ('fn', 'qdom_firstChildElement'),
     'fn:firstChildElement/2': ('expr', 'qdom_firstChildElement({0}, {1}, 0)'),
     'fn:firstChildElement/1': ('expr', 'qdom_firstChildElement({0}, 0, 0)'),
